@@ -177,3 +177,19 @@ Theorem C19_guard_vs_reload_bounded :
     /\ (d_quiet (drun dinit sched) = true -> d_good (drun dinit sched) = true).
 Proof. exact guard_vs_reload_bounded. Qed.
 Print Assumptions C19_guard_vs_reload_bounded.
+
+(** awaiting an async derived value while a user holds its write guard (`d.write()`) on another
+    thread: for every kind of future and every schedule the awaiter resumes with the value before
+    or after the write (repaired code: the `(_, Pending)` arm wakes itself) *)
+Theorem C19_await_vs_write_guard :
+  forall kind sched, let s := wrun true kind winit sched in
+    w_terminal s -> exists v, w_a s = UDone v /\ (v = 1 \/ v = 7)%Z.
+Proof. exact await_vs_write_guard. Qed.
+Print Assumptions C19_await_vs_write_guard.
+
+(** before the fix the awaiter returned Pending with nothing registered: F-C19-g, fixed in /repo *)
+Theorem C19_await_vs_write_guard_prefix_refuted :
+  exists sched, let s := wrun false 1 winit sched in
+    w_terminal s /\ w_a s = UParked false.
+Proof. exact await_vs_write_guard_prefix_refuted. Qed.
+Print Assumptions C19_await_vs_write_guard_prefix_refuted.
